@@ -288,10 +288,6 @@ def _born(steps, i, name):
     return j
 
 
-def _args_sans_wid(a):
-    return a
-
-
 def _spelled_out(pver, ver, name):
     """option lines present in exactly one of the two versions of the section"""
     a, b = _section(pver, name), _section(ver, name)
@@ -383,22 +379,29 @@ def oracle(case, obs):
             # -- a worker spawned by this reload gets the command line and environment the file specifies
             if fw["pids"]:
                 fenv = f["spawn_env"].get(str(fw["pids"][0]))
-                fargs = _args_sans_wid(f["spawn_args"].get(str(fw["pids"][0])))
+                fargs = f["spawn_args"].get(str(fw["pids"][0]))
                 for p in w["pids"]:
                     if p not in o["spawned"]:
                         continue
                     env = o["spawn_env"].get(str(p))
-                    if _args_sans_wid(o["spawn_args"].get(str(p))) != fargs:
+                    if o["spawn_args"].get(str(p)) != fargs:
                         fail(i, "c12:new-worker-command", "%s: worker %d was spawned as %r, a fresh start spawns %r"
                              % (name, p, o["spawn_args"].get(str(p)), f["spawn_args"].get(str(fw["pids"][0]))))
                     if env != fenv:
-                        ks = sorted(k for k in set(env or {}) | set(fenv or {}) if (env or {}).get(k) != (fenv or {}).get(k))
-                        if set(ks) <= set(EXC):
+                        # the _ENV_EXCEPTIONS names count only while the file has not changed them since the
+                        # watcher was made (a change of them is ignored by the code on purpose)
+                        benv = None
+                        bf = [x for x in fresh[born]["watchers"] if x["name"] == name]
+                        if bf and bf[0]["pids"]:
+                            benv = fresh[born]["spawn_env"].get(str(bf[0]["pids"][0]))
+                        ks = sorted(k for k in set(env or {}) | set(fenv or {}) if (env or {}).get(k) != (fenv or {}).get(k)
+                                    and not (k in EXC and (benv or {}).get(k) != (fenv or {}).get(k)))
+                        if ks and set(ks) <= set(EXC):
                             fail(i, "c12:env-exceptions-deleted-from-live-env",
-                                 "%s: worker %d spawned by this reload got no %s; the file says %r (an earlier reload "
-                                 "deleted the _ENV_EXCEPTIONS names from the watcher's live env dict)"
-                                 % (name, p, ks, {k: (fenv or {}).get(k) for k in ks}))
-                        else:
+                                 "%s: worker %d spawned by this reload got %r for %s; the file says %r and has said so "
+                                 "since the watcher was made" % (name, p, {k: (env or {}).get(k) for k in ks}, ks,
+                                                                {k: (fenv or {}).get(k) for k in ks}))
+                        elif ks:
                             fail(i, "c12:new-worker-environment", "%s: worker %d got %r for %s, a fresh start gives %r"
                                  % (name, p, {k: (env or {}).get(k) for k in ks}, ks, {k: (fenv or {}).get(k) for k in ks}))
         # -- nobody is left behind
